@@ -4,22 +4,86 @@
 #include "common/hx.h"
 #include <nstd/Base.hpp>
 
+#include <nstd/String.hpp>
+
+// the forms in which one and the same text is handed to the library (see the KEY_STRING build below)
+static const int NORIGIN = 6;
+static int g_origin = 0;
+static unsigned g_rot = 0;
+
+struct StrForm
+{
+  String aux, s;
+  char* buf;
+  StrForm(const char* b, usize len, int origin) : buf(0)
+  {
+    switch(origin)
+    {
+    case 0: s = String(b, len); break;
+    case 1: s = String(b, len); s.reserve(len + 13); break;
+    case 2:
+      buf = (char*)malloc(len + 3);
+      buf[0] = 0x7e; memcpy(buf + 1, b, len); buf[len + 1] = 0x7e; buf[len + 2] = 0x7e;
+      s.attach(buf + 1, len);
+      break;
+    case 3: aux = String(b, len); s = aux; break;
+    case 4:
+      buf = (char*)malloc(len + 1);
+      memcpy(buf, b, len); buf[len] = 0;
+      s.attach(buf, len);
+      break;
+    default:
+      if(len == 0) break;       // String()
+      buf = (char*)malloc(len + 1);
+      memcpy(buf, b, len); buf[len] = 0x01;
+      s.attach(buf, len);
+      break;
+    }
+  }
+  ~StrForm() { free(buf); }
+private:
+  StrForm(const StrForm&);
+  StrForm& operator=(const StrForm&);
+};
+
 #ifdef KEY_STRING
 // second build: the key type is nstd String with the library's own hash(const String&) and operator==.
-// Key number k is the 5-character text  ('a' + k % 3) (digit k/3 % 4) 'b' (digit k/12) 'c':  the hash function
-// reads the characters 0, 2 and 4 only, so all keys with the same k % 3 collide whatever the capacity.
-#include <nstd/String.hpp>
+// Key number 0 is the EMPTY text, 1 is "x", k >= 2 is the 5-character text of n = k - 2:
+//   ('a' + n % 3) (digit n/3 % 4) 'b' (digit n/12) 'c'   (the hash function reads the characters 0, 2 and 4 only,
+// so all such keys with the same n % 3 collide whatever the capacity).
+// A key argument is materialised in one of NORIGIN forms (`origin n` line; 9 = rotate on every use): the same text as
+// an owned string, an owned string with spare capacity, a view attached inside a larger exactly sized heap block
+// whose neighbouring bytes are not NUL, a shared copy, a view of a NUL terminated block (what a literal is), and
+// String() / a view at the start of a block.  Equal texts must behave as the same key whatever their form.
 typedef String Key;
-static Key mkKey(int k)
+static usize keyText(int k, char* b)
 {
-  char b[6];
-  b[0] = (char)('a' + k % 3); b[1] = (char)('0' + (k / 3) % 4); b[2] = 'b'; b[3] = (char)('0' + (k / 12) % 10); b[4] = 'c'; b[5] = 0;
-  return String(b, 5);
+  if(k == 0) return 0;
+  if(k == 1) { b[0] = 'x'; return 1; }
+  int n = k - 2;
+  b[0] = (char)('a' + n % 3); b[1] = (char)('0' + (n / 3) % 4); b[2] = 'b'; b[3] = (char)('0' + (n / 12) % 10); b[4] = 'c';
+  return 5;
 }
+static int pickOrigin(int origin)
+{
+  if(origin < 0) origin = g_origin;
+  return origin >= NORIGIN ? (int)(g_rot++ % NORIGIN) : origin;
+}
+struct KeyArg
+{
+  char text[8];
+  StrForm f;
+  KeyArg(int k, int origin = -1) : f(text, keyText(k, text), pickOrigin(origin)) {}
+};
+#define mkKey(k) (KeyArg(k).f.s)
+#define mkKeyObs(k) (KeyArg(k, 9).f.s)      // observation: rotate through all forms
 static int keyNum(const Key& s)
 {
+  usize len = s.length();
+  if(len == 0) return 0;
+  if(len == 1) return 1;
   const char* p = s;
-  return (p[0] - 'a') + 3 * (p[1] - '0') + 12 * (p[3] - '0');
+  return 2 + (p[0] - 'a') + 3 * (p[1] - '0') + 12 * (p[3] - '0');
 }
 static int g_mode = 0;
 #else
@@ -31,7 +95,8 @@ struct Key
   bool operator==(const Key& o) const { return v == o.v; }
   bool operator!=(const Key& o) const { return v != o.v; }
 };
-static Key mkKey(int k) { return Key(k); }
+#define mkKey(k) (Key(k))
+#define mkKeyObs(k) (Key(k))
 static int keyNum(const Key& k) { return k.v; }
 
 static int g_mode = 0;
@@ -244,14 +309,14 @@ template<class C> static void observeTable(C& c)
   printf(" f=");
   for(int k = 0; k < g_dom; ++k)
   {
-    typename C::Iterator f = c.find(mkKey(k));
+    typename C::Iterator f = c.find(mkKeyObs(k));
     if(k) printf(",");
     if(f == c.end()) printf("-");
     else printf("%ld", posOf(c, f));
   }
   printf(" c=");
   for(int k = 0; k < g_dom; ++k)
-    printf("%d", (int)c.contains(mkKey(k)));
+    printf("%d", (int)c.contains(mkKeyObs(k)));
   if(c.isEmpty()) printf(" fr=- bk=-");
   else
   {
@@ -377,6 +442,8 @@ static void configure(int kind, int mode, int dom)
   rSet.destroy();
   rPool.destroy();
   g_kind = kind;
+  g_origin = 0;
+  g_rot = 0;
   g_mode = mode;
   g_dom = dom;
   if(kind == 0) rMap.create();
@@ -400,6 +467,7 @@ int main()
     long res = -1;
     bool ok;
     if(hxIs(l, "reset", 0)) { configure(0, 0, 6); observe(-1); continue; }
+    if(hxIs(l, "origin", 1)) { g_origin = (int)hxNum(l, 1); observe(-1); continue; }
     if(hxIs(l, "cfg", 3))
     {
       int kind = strcmp(l.tok[1], "map") == 0 ? 0 : strcmp(l.tok[1], "set") == 0 ? 1 : strcmp(l.tok[1], "pool") == 0 ? 2 : -1;
@@ -424,11 +492,26 @@ int main()
     }
     if(hxIs(l, "hashstr", 1))
     {
+      // hash(const String&) of the same text in every form: equal strings must have equal hash codes
       size_t len = 0;
       char* d = hxCStr(l.tok[1], len);
       {
-        String s(d, len);
-        printf("num %lu", (unsigned long)hash(s));
+        usize hv[NORIGIN];
+        bool same = true;
+        StrForm ref(d, len, 0);
+        for(int o = 0; o < NORIGIN; ++o)
+        {
+          StrForm f(d, len, o);
+          if(!(f.s == ref.s) || f.s != ref.s) same = false;     // the forms are equal strings
+          hv[o] = hash(f.s);
+          if(hv[o] != hv[0]) same = false;
+        }
+        printf("num %lu", (unsigned long)hv[0]);
+        if(!same)
+        {
+          printf(" HASH-DEPENDS-ON-ORIGIN");
+          for(int o = 1; o < NORIGIN; ++o) printf(" %lu", (unsigned long)hv[o]);
+        }
       }
       free(d);
       hxEndLine();
